@@ -63,6 +63,7 @@ func main() {
 		verif := fs.String("verif", "/verif", "verif root")
 		keep := fs.Bool("keep", false, "keep smt files")
 		only := fs.String("only", "", "only units whose name contains this")
+		outDir := fs.String("out", "", "evidence directory (default <verif>/evidence)")
 		verbose := fs.Bool("v", false, "verbose")
 		fs.Parse(os.Args[2:])
 		args := fs.Args()
@@ -74,12 +75,18 @@ func main() {
 		if len(args) > 1 {
 			tier = args[1]
 		}
+		evidenceDir = *outDir
+		if evidenceDir == "" {
+			evidenceDir = filepath.Join(*verif, "evidence")
+		}
 		os.Exit(runCheck(*repo, *verif, args[0], tier, *keep, *only, *verbose))
 	default:
 		fmt.Println("unknown command")
 		os.Exit(2)
 	}
 }
+
+var evidenceDir string
 
 type oblReport struct {
 	Name    string  `json:"obligation"`
@@ -96,7 +103,7 @@ func runCheck(repo, verif, prop, tier string, keep bool, only string, verbose bo
 	eng := &Engine{fset: token.NewFileSet(), repo: repo, verifDir: verif, typeTags: map[string]int{}}
 	fail := func(msg string) int {
 		// machinery failure: reported as a violation without input, never as a pass
-		replay := filepath.Join(verif, "evidence", "replay", prop+"-engine.json")
+		replay := filepath.Join(evidenceDir, "replay", prop+"-engine.json")
 		os.MkdirAll(filepath.Dir(replay), 0o755)
 		b, _ := json.MarshalIndent(map[string]string{"property": prop, "obligation": "engine", "error": msg}, "", " ")
 		os.WriteFile(replay, b, 0o644)
@@ -250,7 +257,7 @@ func runCheck(repo, verif, prop, tier string, keep bool, only string, verbose bo
 	violations := 0
 	var knownHit []string
 	exit := 0
-	replayDir := filepath.Join(verif, "evidence", "replay")
+	replayDir := filepath.Join(evidenceDir, "replay")
 	for _, o := range failed {
 		isKnown := false
 		for _, k := range known {
@@ -326,9 +333,9 @@ func runCheck(repo, verif, prop, tier string, keep bool, only string, verbose bo
 		},
 		"assumptions": assumptions,
 	}
-	os.MkdirAll(filepath.Join(verif, "evidence"), 0o755)
+	os.MkdirAll(evidenceDir, 0o755)
 	b, _ := json.MarshalIndent(ev, "", " ")
-	os.WriteFile(filepath.Join(verif, "evidence", prop+".json"), b, 0o644)
+	os.WriteFile(filepath.Join(evidenceDir, prop+".json"), b, 0o644)
 	fmt.Printf("%s %s: units=%d obligations=%d discharged=%d vacuity=%d known=%d violations=%d load=%.1fs wall=%.1fs\n",
 		prop, tier, len(results), nObl, nDis, vacChecks, len(knownHit), violations, loadS, time.Since(t0).Seconds())
 	return exit
